@@ -220,6 +220,21 @@ func (x *Exec) assertNamed(st *State, name, class, goal, desc string, pos token.
 
 func heapKey(sort string) string { return "H:" + sort }
 
+// heapKeyT: the heap an object of Go type t lives in. Struct objects have one heap per struct type
+// (the sort name identifies the type); objects of basic, slice or map type have one heap per Go type,
+// so that a *int and a *time.Duration never alias although both point to integers.
+func (x *Exec) heapKeyT(t types.Type) (key, elemSort string) {
+	es := x.vc.sortOf(t)
+	if inf := x.vc.info(es); inf != nil && inf.Kind == kStruct {
+		return heapKey(es), es
+	}
+	k := sanitize(typeKey(t))
+	if len(k) > 80 {
+		k = k[len(k)-80:]
+	}
+	return "H:" + es + "@" + k, es
+}
+
 func (x *Exec) heapGet(st *State, key, sort string) Val {
 	if v, ok := st.heap[key]; ok {
 		return v
@@ -238,8 +253,8 @@ func (x *Exec) heapGet(st *State, key, sort string) Val {
 
 // lazily created keys must be the same constant in all states derived from the
 // entry state: we pre-create per key in a function-wide table.
-func (x *Exec) heapFor(st *State, elemSort string) Val {
-	key := heapKey(elemSort)
+func (x *Exec) heapFor(st *State, elemT types.Type) Val {
+	key, elemSort := x.heapKeyT(elemT)
 	if v, ok := st.heap[key]; ok {
 		return v
 	}
@@ -257,7 +272,7 @@ func (x *Exec) initialHeap(st *State, key, sort string) Val {
 		x.prog.tmpInit[x][key] = v
 	}
 	st.heap[key] = v
-	if !ok && strings.HasPrefix(key, "H:") {
+	if !ok && strings.HasPrefix(key, "H:") && !strings.Contains(key, "@") {
 		x.allocAxioms(v, strings.TrimPrefix(key, "H:"))
 	}
 	return v
@@ -316,15 +331,15 @@ func (x *Exec) lookupHeap(st *State, key, sort string) Val {
 
 func (x *Exec) deref(st *State, ptr Val, elemT types.Type) Val {
 	es := x.vc.sortOf(elemT)
-	h := x.heapFor(st, es)
+	h := x.heapFor(st, elemT)
 	return Val{T: fmt.Sprintf("(select %s %s)", h.T, ptr.T), Sort: es, GoT: elemT}
 }
 
 func (x *Exec) storeRef(st *State, ptr Val, elemT types.Type, v Val) {
-	es := x.vc.sortOf(elemT)
-	h := x.heapFor(st, es)
+	key, es := x.heapKeyT(elemT)
+	h := x.heapFor(st, elemT)
 	nh := Val{T: fmt.Sprintf("(store %s %s %s)", h.T, ptr.T, v.T), Sort: h.Sort}
-	st.heap[heapKey(es)] = x.nameAlways("heap_"+es, nh)
+	st.heap[key] = x.nameAlways("heap_"+es, nh)
 }
 
 func (x *Exec) nameAlways(hint string, v Val) Val {
@@ -1704,6 +1719,7 @@ func (x *Exec) boxFuncsFor(srcSort string, got any, ts string) (string, string, 
 		x.vc.declFun(tag, []string{ts}, "Int")
 		x.vc.fact(fmt.Sprintf("(forall ((a!b %s)) (! (and (= (%s (%s a!b)) a!b) (= (%s (%s a!b)) %d) (not (= (%s a!b) %s))) :pattern ((%s a!b))))",
 			srcSort, unbox, box, tag, box, id, box, x.vc.nilTerm(ts), box))
+		x.vc.fact(fmt.Sprintf("(forall ((v!b %s)) (! (=> (= (%s v!b) %d) (= (%s (%s v!b)) v!b)) :pattern ((%s v!b))))", ts, tag, id, box, unbox, unbox))
 		x.vc.termFact(fmt.Sprintf("(= (%s %s) 0)", tag, x.vc.nilTerm(ts)))
 	}
 	return box, unbox, id
